@@ -148,7 +148,11 @@ async fn one_case(line: &str, n: usize, tmp: &std::path::Path) -> String {
     let mut d = vec![];
     diff("", &j0, &j1, 6, &mut d);
     let canon = |s: String| s.replace(root.as_str(), "R");
-    let st = read(&stf).map(|s| s.trim().to_string()).unwrap_or_else(|| "none".into());
+    // one record per line (`$?` once, or per loop iteration, or inside/after the function): joined by ','
+    let st = read(&stf)
+        .map(|s| s.trim().split('\n').map(str::trim).collect::<Vec<_>>().join(","))
+        .map(|s| if s.is_empty() { "empty".to_string() } else { s.replace(' ', "_") })
+        .unwrap_or_else(|| "none".into());
     let sub = canon(read(&subf).unwrap_or_default());
     let par = canon(read(&parf).unwrap_or_default());
     let err = match rr {
